@@ -31,17 +31,17 @@ type Control struct {
 	Expect     []string `json:"expect"` // obligation keys that must become violated
 	Why        string   `json:"why"`
 	Edits      []Edit   `json:"edits"`
-	Suite      string   `json:"suite,omitempty"` // "survives" / "killed by <test>" when calibrated
-	Patch      string   `json:"patch,omitempty"` // unified diff (relative to /verif) applied instead of Edits
+	Suite      string   `json:"suite,omitempty"`  // "survives" / "killed by <test>" when calibrated
+	Patch      string   `json:"patch,omitempty"`  // unified diff (relative to /verif) applied instead of Edits
 	Benign     bool     `json:"benign,omitempty"` // negative control: behaviour-preserving, NO new violation may appear
 }
 
 type WitnessResult struct {
-	ID       string   `json:"id"`
-	Expect   []string `json:"expect"`
-	Status   string   `json:"status"` // detected | MISSED | skipped
-	Detail   string   `json:"detail,omitempty"`
-	Extra    []string `json:"also_violated,omitempty"`
+	ID     string   `json:"id"`
+	Expect []string `json:"expect"`
+	Status string   `json:"status"` // detected | MISSED | skipped
+	Detail string   `json:"detail,omitempty"`
+	Extra  []string `json:"also_violated,omitempty"`
 }
 
 func loadControls(verifDir string) ([]Control, error) {
